@@ -9,6 +9,7 @@ engine `fse` (stateless)
   fse build <maxlog> <avoid> <counts>         normalise, build, describe: ok <al> <probs> E<enc digest> W<description hex> R<bytes read> D<dec digest>
   fse fromprobs <al> <probs>                  both builders on an explicit distribution (max symbol 255)
                                                                           ok E<enc digest|fault> D<dec digest|err>
+  fse specprobs <al> <probs>                  Spec.Fse.buildTable alone (oracle line):  ok D<digest>
   fse enctab <al> <probs>                     encoder table in clear (small tables)
   fse dectab <maxsym> <al> <probs>            decoder table in clear (build_from_probabilities)
   fse dec <maxsym> <maxlog> <hex>             build_decoder:              ok <bytes> <al> <probs> D<dec digest> | err …
@@ -150,6 +151,16 @@ def handle (cmd : String) (args : List String) : String :=
          | .ok et => "E" ++ digestWords (encWords et)
          | .error _ => "fault"
        s!"ok {e} | {decOf 255 al ps}"
+     | _, _ => badOp)
+  | "specprobs", [al, ps] =>
+    -- the RFC transcription alone: `Spec.Fse.buildTable` on an explicit distribution (an ORACLE line)
+    (match al.toNat?, intList ps with
+     | some al, some ps =>
+       (match Zstd.Spec.Fse.buildTable al ps with
+        | none => "err build"
+        | some t =>
+          let ws := al :: t.entries.size :: t.entries.toList.flatMap fun e => [e.symbol, e.nbBits, e.baseline]
+          s!"ok D{digestWords ws}")
      | _, _ => badOp)
   | "enctab", [al, ps] =>
     (match al.toNat?, intList ps with
